@@ -248,12 +248,12 @@ func (r *RespSpec) Encode(method string) []byte {
 
 // ClientItem is one scripted write of a raw client.
 type ClientItem struct {
-	Raw       []byte
-	Method    string // "" for garbage
-	Pipelined bool
-	Spec      *ReqSpec
-	SentStep  int
-	Sent      bool
+	Raw        []byte
+	Method     string // "" for garbage
+	Pipelined  bool
+	Spec       *ReqSpec
+	SentStep   int
+	Sent       bool
 	CloseAfter bool // client closes its end after sending this item
 	// SplitAt > 0: the first SplitAt bytes are written as soon as the item may be sent
 	// (pipelined), the rest only once every earlier response has been received.
@@ -263,14 +263,14 @@ type ClientItem struct {
 
 // Client is a controller-driven raw client of the proxy.
 type Client struct {
-	k      *kernel.K
-	Name   string
-	C      *simnet.Conn
-	P      *wire.Parser
-	Script []*ClientItem
-	next   int
-	SawEOF bool
-	SawRST bool
+	k       *kernel.K
+	Name    string
+	C       *simnet.Conn
+	P       *wire.Parser
+	Script  []*ClientItem
+	next    int
+	SawEOF  bool
+	SawRST  bool
 	EOFStep int
 	// Hold, when set, prevents further sends.
 	Hold bool
@@ -448,15 +448,15 @@ type Reply struct {
 
 // OConn is one connection accepted by a raw origin.
 type OConn struct {
-	O        *Origin
-	Idx      int
-	C        *simnet.Conn
-	P        *wire.Parser
-	Replied  int
-	Closed   bool
-	SawEOF   bool
-	SawRST   bool
-	Replies  []*Reply
+	O             *Origin
+	Idx           int
+	C             *simnet.Conn
+	P             *wire.Parser
+	Replied       int
+	Closed        bool
+	SawEOF        bool
+	SawRST        bool
+	Replies       []*Reply
 	FirstByteStep int
 	// StartSteps[i] is the step at which the first byte of the i-th request arrived.
 	StartSteps []int
